@@ -4,6 +4,7 @@ namespace Refinery.Gen.QueryAuth
 
 def errAuthNeededMsg : String := "unknown API key - check your credentials"
 def errAuthNeededStatus : Int := 400
+def queryMethods := ["GET"] ++ ([] : List String)
 def queryRouteCount : Int := 4
 def queryRoutes := ["/query/allrules/{format}", "/query/configmetadata", "/query/rules/{format}/{dataset}", "/query/trace/{traceID}"] ++ ([] : List String)
 def queryRoutesOutsideSubrouter : Int := 0
